@@ -7,6 +7,98 @@ Open Scope Z_scope.
 
 Local Notation length := List.length.
 
+
+Ltac getPV P :=
+  pose proof (p_V _ _ _ _ _ P) as PV; pose proof (p_O _ _ _ _ _ P) as PO; pose proof (p_G _ _ _ _ _ P) as PG;
+  pose proof (p_A1 _ _ _ _ _ P) as PA1; pose proof (p_A0 _ _ _ _ _ P) as PA0;
+  pose proof (p_Go1 _ _ _ _ _ P) as PGo1; pose proof (p_Go0 _ _ _ _ _ P) as PGo0;
+  pose proof (p_PO _ _ _ _ _ P) as PPO; pose proof (p_PS _ _ _ _ _ P) as PPS; pose proof (p_PA _ _ _ _ _ P) as PPA;
+  pose proof (p_L _ _ _ _ _ P) as PL; pose proof (p_Ans _ _ _ _ _ P) as PAns; clear P.
+
+Lemma kinv_snocV a (l : list (Z * Z)) (x : node) g : kinv a (l ++ [(x, g)]) = kinv a l || (a =? x).
+Proof. unfold kinv, zmem. rewrite map_app, existsb_app. simpl. rewrite orb_false_r. reflexivity. Qed.
+
+Lemma pd_step_recv_indepV pd x y rest o o' x' : x' <> y ->
+  pd_step pd x y rest o x' y = pd_step pd x y rest o' x' y.
+Proof. intros H. unfold pd_step. apply Z.eqb_neq in H. rewrite H. reflexivity. Qed.
+
+(* ------------------------------------------------------------------ local pair transformations:
+   the node whose value table is complete goes from state value to state offer *)
+Section LocalV.
+  Variable rn : node -> bool.
+  Variables S1 S2 : node -> m2st.
+  Variables pd1 pd2 : node -> node -> list m2msg.
+
+  (* receiver b: value -> offer; the sender a is in the same cycle, in state value or offer *)
+  Lemma recv_to2 a b (off : bool) p :
+    S2 a = S1 a ->
+    t_state (S1 b) = 1 -> t_offerer (S1 b) = false -> t_committed (S1 b) = false -> t_offers (S1 b) = [] ->
+    t_state (S2 b) = 2 ->
+    t_cycle (S2 b) = t_cycle (S1 b) -> t_fin (S2 b) = t_fin (S1 b) -> t_nv (S2 b) = t_nv (S1 b) ->
+    t_offers (S2 b) = t_offers (S1 b) -> t_ng (S2 b) = t_ng (S1 b) ->
+    t_partner (S2 b) = (if off then Some p else None) -> t_committed (S2 b) = false -> t_offerer (S2 b) = off ->
+    pd2 a b = pd1 a b ->
+    t_cycle (S1 a) = t_cycle (S1 b) -> t_state (S1 a) <= 2 ->
+    pairI rn S1 pd1 a b -> pairI rn S2 pd2 a b.
+  Proof.
+    intros Ea B1 Bo Bc Bof B1' B2 B3 B4 B5 B6 B7 B8 B9 Hp Hcy Hk P. getPV P.
+    constructor; unf; rewrite ?Ea, ?Hp, ?B1', ?B2, ?B3, ?B4, ?B5, ?B6, ?B7, ?B8, ?B9; rewrite ?B1, ?Bo, ?Bc, ?Bof in *;
+      try assumption.
+    - intros _ H. exfalso. clear - H Hk. lia.
+    - intros _. apply PA0. intros [(E & _) _]. discriminate.
+    - intros (E & _). discriminate.
+    - intros _. apply PGo0. intros [(E & _) _]. discriminate.
+    - intros f os _ [].
+    - intros H1 H2. exfalso. destruct (PL H1 H2) as [[H _]|[_ H]]; [clear - H Hcy; lia|].
+      destruct (t_offerer (S1 a)); [destruct H as (_ & H & _)|destruct H as (H & _)]; discriminate.
+  Qed.
+
+  (* sender a: value -> offer; one offer goes to b, which is in the same cycle *)
+  Lemma send_to2 a b (off : bool) p os :
+    S2 b = S1 b -> rn a = true -> rn b = true ->
+    t_state (S1 a) = 1 -> t_offerer (S1 a) = false -> t_committed (S1 a) = false ->
+    t_state (S2 a) = 2 ->
+    t_cycle (S2 a) = t_cycle (S1 a) -> t_fin (S2 a) = t_fin (S1 a) ->
+    t_partner (S2 a) = (if off then Some p else None) -> t_committed (S2 a) = false -> t_offerer (S2 a) = off ->
+    pd2 a b = pd1 a b ++ [M2Offer (off && (b =? p)) os] ->
+    t_cycle (S1 b) = t_cycle (S1 a) ->
+    pairI rn S1 pd1 a b -> pairI rn S2 pd2 a b.
+  Proof.
+    intros Eb Ra Rb A1 Ao Ac A1' A2 A3 A7 A8 A9 Hp Hcy P. getPV P.
+    assert (C : forall k, cnt k (pd2 a b) = cnt k (pd1 a b) + b2z (2 =? k)).
+    { intros k. rewrite Hp, cnt_app, cnt_cons, cnt_nil. simpl kind_of. lia. }
+    assert (Hin : forall m, In m (pd2 a b) -> In m (pd1 a b) \/ m = M2Offer (off && (b =? p)) os).
+    { intros m. rewrite Hp. intros H. apply in_app_or in H as [H|[<-|[]]]; [left; exact H|right; reflexivity]. }
+    assert (Z2 : cnt 2 (pd1 a b) = 0 /\ kino a (t_offers (S1 b)) = false).
+    { unfold SO, CO in PO. rewrite Ra, Rb, A1 in PO. change (b2z (2 <=? 1)) with 0 in PO.
+      pose proof (cnt_nonneg 2 (pd1 a b)) as Hn.
+      destruct (kino a (t_offers (S1 b))); simpl b2z in PO; [exfalso; clear - PO Hn Hcy; lia|].
+      split; [clear - PO Hn Hcy; lia|reflexivity]. }
+    destruct Z2 as [Z2 Zk].
+    assert (Z3 : cnt 3 (pd1 a b) = 0).
+    { apply PA0. intros [_ H]. rewrite A1 in H. clear - H. lia. }
+    assert (Z5 : cnt 5 (pd1 a b) = 0).
+    { apply PGo0. intros [_ [[_ H]|H]]; [rewrite A1 in H; discriminate|clear - H Hcy; lia]. }
+    constructor; unf; rewrite ?Eb, ?C, ?A1', ?A2, ?A3, ?A7, ?A8, ?A9; rewrite ?A1, ?Ao, ?Ac, ?Ra, ?Rb in *.
+    - change (b2z (2 =? 1)) with 0. clear - PV. lia.
+    - change (b2z (2 =? 2)) with 1. change (b2z (2 <=? 2)) with 1. change (b2z (2 <=? 1)) with 0 in PO. clear - PO. lia.
+    - change (b2z (2 =? 4)) with 0. change (b2z (4 <=? 2)) with 0. change (b2z (4 <=? 1)) with 0 in PG. clear - PG. lia.
+    - intros _ H. exfalso. clear - H. lia.
+    - intros _. rewrite Z3. reflexivity.
+    - intros _ [[_ H]|H]; exfalso; [discriminate|clear - H Hcy; lia].
+    - intros _. rewrite Z5. reflexivity.
+    - intros f os0 H. apply Hin in H as [H|H].
+      + exfalso. apply in_cnt_pos in H. simpl kind_of in H. clear - H Z2. lia.
+      + injection H as -> _. destruct off; reflexivity.
+    - intros f os0 _ H. exfalso. apply kino_false in Zk. apply Zk. apply in_map_iff.
+      exists (a, M2Offer f os0). split; [reflexivity|exact H].
+    - intros a0 v g H. apply Hin in H as [H|H]; [|discriminate].
+      exfalso. apply in_cnt_pos in H. simpl kind_of in H. clear - H Z3. lia.
+    - intros H. discriminate.
+    - intros _ _ H. exfalso. clear - H. lia.
+  Qed.
+End LocalV.
+
 Section StepV.
   Variable d : dcop.
   Variable stop thr favor : Z.
@@ -24,6 +116,29 @@ Section StepV.
   Notation pending_nbr := (pending_nbr d stop rn S pd HI).
   Notation evok := (evok stop).
 
+  (* a neighbour w of y (state value) whose value of the current cycle of y has been sent: it runs, is in
+     the same cycle, in state value or offer, not finished *)
+  Lemma nbr_here1 y w : rn y = true -> t_state (S y) = 1 -> In w (nbr y) ->
+    0 < cnt 1 (pd w y) + b2z (kinv w (t_nv (S y))) ->
+    rn w = true /\ t_cycle (S w) = t_cycle (S y) /\ t_fin (S w) = 0 /\ t_state (S w) <= 2 /\
+    cnt 1 (pd w y) + b2z (kinv w (t_nv (S y))) = 1.
+  Proof.
+    intros Ry Hk Hw Hpos. pose proof (i_pair _ _ _ _ _ HI w y Hw) as P. pose proof (p_V _ _ _ _ _ P) as E. clear P.
+    unfold SV, CV in E. rewrite Ry in E.
+    pose proof (g_c _ _ _ _ (i_good _ _ _ _ _ HI y Ry (act_of d w y Hw))) as Cy.
+    assert (Rw : rn w = true). { destruct (rn w); [reflexivity|]. exfalso. clear - E Cy Hpos. lia. }
+    rewrite Rw in E. destruct (pos_facts w y Hw Rw Ry) as (Q1 & Q2 & Q3).
+    pose proof (i_good _ _ _ _ _ HI w Rw (act_of d y w (nbrs_sym d y w Hw))) as Gw.
+    pose proof (b2z_range (P_Mgm2x.doneb stop (t_cycle (S w)))) as Fw. rewrite <- (g_fin _ _ _ _ Gw) in Fw.
+    assert (Hle : t_cycle (S w) <= t_cycle (S y)) by (clear - Q1 Q2 Hk; lia).
+    assert (Hc : t_cycle (S w) = t_cycle (S y) /\ t_fin (S w) = 0 /\ cnt 1 (pd w y) + b2z (kinv w (t_nv (S y))) = 1)
+      by (clear - E Hpos Fw Hle; lia).
+    destruct Hc as (Hc & F0 & H1). destruct (Q3 Hc) as (Q4 & _ & _).
+    split; [exact Rw|]. split; [exact Hc|]. split; [exact F0|]. split; [|exact H1].
+    destruct (Z_le_gt_dec (t_state (S w)) 2) as [Hle2|Hgt]; [exact Hle2|exfalso].
+    assert (H3 : 3 <= t_state (S w)) by (clear - Hgt; lia). specialize (Q4 H3). clear - Q4 Hk. lia.
+  Qed.
+
   (* ============================================================ value message *)
   Lemma step_V y x v l1 l2 : rn y = true -> pd x y = l1 ++ M2Value v :: l2 -> t_state (S y) = 1 ->
     step_ok y x (M2Value v) l1 l2.
@@ -35,19 +150,10 @@ Section StepV.
     assert (Hne : x <> y) by (intros ->; eapply nbrs_irrefl; eauto).
     (* the sender runs, is in the same cycle, its value is not yet in the table *)
     pose proof (in_cnt_pos _ _ (in_pd _ _ _ _ _ _ Hp)) as Hc1. simpl in Hc1.
-    pose proof (i_pair _ _ _ _ _ HI x y Hxy) as Pxy.
-    assert (Rx : rn x = true).
-    { destruct (rn x) eqn:Rx; [reflexivity|exfalso]. pose proof (p_V _ _ _ _ _ Pxy) as E. unf. rewrite Rx, Ry in E.
-      pose proof (g_c _ _ _ _ Gy). pose proof (b2z_range (kinv x (t_nv (S y)))). lia. }
-    pose proof (i_good _ _ _ _ _ HI x Rx (act_of d y x Hyx)) as Gx.
-    destruct (pos_facts x y Hxy Rx Ry) as (Q1 & Q2 & Q3).
-    assert (Hkv : kinv x (t_nv (S y)) = false /\ cnt 1 (pd x y) = 1 /\ t_cycle (S x) = t_cycle (S y) /\ t_fin (S x) = 0).
-    { pose proof (p_V _ _ _ _ _ Pxy) as E. unf. rewrite Rx, Ry in E.
-      pose proof (b2z_range (doneb (t_cycle (S x)))) as Fx. rewrite <- (g_fin _ _ _ _ Gx) in Fx.
-      assert (t_cycle (S x) <= t_cycle (S y)) by (clear - Q1 Q2 Hk; lia).
-      destruct (kinv x (t_nv (S y))); simpl in E; [exfalso; clear - E Hc1 Fx H; lia|].
-      split; [reflexivity|]. clear - E Hc1 Fx H. lia. }
-    destruct Hkv as (Hkv & Hcnt & Hcyc & Hfx).
+    destruct (nbr_here1 y x Ry Hk Hxy) as (Rx & Hcyc & Hfx & Hkx & Hone).
+    { pose proof (b2z_range (kinv x (t_nv (S y)))) as B. clear - B Hc1. lia. }
+    assert (Hkv : kinv x (t_nv (S y)) = false).
+    { destruct (kinv x (t_nv (S y))); [exfalso; simpl in Hone; clear - Hone Hc1; lia|reflexivity]. }
     unfold mstep, on_msg in Hm. simpl kind_of in Hm. rewrite Hk in Hm. simpl negb in Hm. cbv iota in Hm.
     rewrite (dict_set_fresh x v (t_nv (S y)) Hkv) in Hm.
     match type of Hm with context [handle_value_messages _ _ _ _ ?t] =>
@@ -66,43 +172,39 @@ Section StepV.
     assert (Hlen : (length (t_nv s1) <= length (nbr y))%nat).
     { rewrite K1nv. rewrite <- (map_length fst). apply NoDup_incl_length; apply Nd1. }
     cbv zeta in Hm. rewrite zlen_eqb in Hm.
+    (* the world after the store *)
+    assert (P1r : forall x', In x' (nbr y) -> pairI rn (updS S y s1) (pd_step pd x y (l1 ++ l2) []) x' y).
+    { intros x' Hx'. assert (Hx'y : x' <> y) by (intros ->; eapply nbrs_irrefl; eauto).
+      destruct (pd_step_recv pd x y l1 (M2Value v) l2 [] x' Hp Hx'y) as [Hc Hi].
+      apply (pairI_store rn S pd); rewrite ?updS_same, ?updS_other by assumption; try reflexivity; try assumption;
+        rewrite ?Hc, ?K1nv, ?K1of, ?K1ng; simpl kind_of; try (rewrite andb_false_r; simpl; lia).
+      + rewrite kinv_snocV. destruct (Z.eqb_spec x' x) as [->|Hn]; simpl.
+        * rewrite Hkv. simpl. lia.
+        * rewrite orb_false_r. lia.
+      + intros f os _ H. left. exact H.
+      + apply (i_pair _ _ _ _ _ HI x' y Hx'). }
+    assert (P1s : forall w, In w (nbr y) -> pairI rn (updS S y s1) (pd_step pd x y (l1 ++ l2) []) y w).
+    { intros w Hw. assert (Hwy : w <> y) by (intros ->; eapply nbrs_irrefl; eauto).
+      apply (pairI_ext rn S pd); rewrite ?updS_same, ?updS_other by assumption; try reflexivity; try assumption.
+      + intros k. rewrite pd_step_send. simpl. rewrite app_nil_r. reflexivity.
+      + intros m0. rewrite pd_step_send. simpl. rewrite app_nil_r. auto.
+      + apply (i_pair _ _ _ _ _ HI y w (nbrs_sym d y w Hw)). }
     destruct (Nat.eqb (length (t_nv s1)) (length (nbr y))) eqn:Ez.
     2:{ (* ---- the value is filed, the table is not complete *)
       apply Nat.eqb_neq in Ez. unfold ret2 in Hm.
       injection Hm as <- <- <-.
       assert (G1 : good y s1).
       { destruct Gy. constructor; rewrite ?K1st, ?K1cy, ?K1fi, ?K1nv, ?K1of, ?K1ng, ?K1pa, ?K1co, ?K1or, ?K1pg; auto.
-        - intros _. rewrite <- K1nv. lia.
-        - intros H. rewrite Hk in H. lia. }
+        - intros _. rewrite <- K1nv. clear - Ez Hlen. lia.
+        - intros H. rewrite Hk in H. clear - H. lia. }
       split; [|split; [apply evok_nil; rewrite K1fi; reflexivity|split; [exact Po1|intros Hc; rewrite K1st in Hc; congruence]]].
-      apply (step_frame d stop rn S pd y s1 x (l1 ++ l2) [] HI Ry Hact Hxy G1).
-      - intros x' Hx'. assert (Hx'y : x' <> y) by (intros ->; eapply nbrs_irrefl; eauto).
-        destruct (pd_step_recv pd x y l1 (M2Value v) l2 [] x' Hp Hx'y) as [Hc Hi].
-        apply (pairI_store rn S pd); rewrite ?updS_same, ?updS_other by assumption; try reflexivity; try assumption;
-          rewrite ?Hc, ?K1nv, ?K1of, ?K1ng; simpl kind_of; try (rewrite andb_false_r; simpl; lia).
-        + unfold kinv at 1. rewrite map_app, (proj1 (existsb_app _ _ _)) || idtac.
-          unfold kinv. rewrite map_app. unfold zmem. rewrite existsb_app. simpl. rewrite orb_false_r.
-          destruct (Z.eqb_spec x' x) as [->|Hn]; simpl.
-          * fold (zmem x (map fst (t_nv (S y)))). fold (kinv x (t_nv (S y))). rewrite Hkv. simpl. lia.
-          * rewrite orb_false_r. lia.
-        + intros f os _ H. left. exact H.
-        + apply (i_pair _ _ _ _ _ HI x' y Hx').
-      - intros w Hw. assert (Hwy : w <> y) by (intros ->; eapply nbrs_irrefl; eauto).
-        apply (pairI_ext rn S pd); rewrite ?updS_same, ?updS_other by assumption; try reflexivity; try assumption.
-        + intros k. rewrite pd_step_send. simpl. rewrite app_nil_r. reflexivity.
-        + intros m0. rewrite pd_step_send. simpl. rewrite app_nil_r. auto.
-        + apply (i_pair _ _ _ _ _ HI y w (nbrs_sym d y w Hw)).
-      - intros w _. reflexivity. }
+      apply (step_frame d stop rn S pd y s1 x (l1 ++ l2) [] HI Ry Hact Hxy G1 P1r P1s).
+      intros w _. reflexivity. }
     (* ---- the table is complete: offers are sent, state offer *)
     apply Nat.eqb_eq in Ez.
-    destruct (hvm0_spec d thr y s1 Hact) as (s2' & off & p & g & E & Hg & Hpin & K2 & Po2).
-    rewrite E in Hm. injection Hm as <- <- <-. clear E.
-    unfold skel in K2. injection K2 as K2st K2cy K2fi K2nv K2of K2ng K2pa K2co K2or.
-    rewrite K1cy in K2cy. rewrite K1fi in K2fi. rewrite K1nv in K2nv. rewrite K1of in K2of. rewrite K1ng in K2ng.
-    rewrite K1co in K2co.
     destruct (g_fl1 _ _ _ _ Gy Hk) as (Foff & Fcom & Fpar).
-    pose proof (g_of1 _ _ _ _ Gy Hk) as Fof. pose proof (g_ng3 _ _ _ _ Gy ltac:(lia)) as Fng.
-    rewrite Fcom in K2co. rewrite Fof in K2of. rewrite Fng in K2ng.
+    pose proof (g_of1 _ _ _ _ Gy Hk) as Fof.
+    assert (Fng : t_ng (S y) = []) by (apply (g_ng3 _ _ _ _ Gy); rewrite Hk; clear; lia).
     assert (Hlen2 : length (map fst (t_nv (S y) ++ [(x, v)])) = length (nbr y)) by (rewrite map_length, <- K1nv; exact Ez).
     (* every neighbour runs, is in the same cycle, in state value or offer, not finished *)
     assert (AllN : forall w, In w (nbr y) ->
@@ -110,36 +212,55 @@ Section StepV.
               kinv w (t_nv (S y) ++ [(x, v)]) = true).
     { intros w Hw. assert (Kw : kinv w (t_nv (S y) ++ [(x, v)]) = true).
       { apply kinv_In. apply (full_in _ (nbr y)); [apply Nd1|apply Nd1|exact Hlen2|exact Hw]. }
-      destruct (Z.eq_dec w x) as [->|Hwx].
-      - destruct Q3 as (Q31 & _); [exact Hcyc|]. repeat split; try assumption.
-        destruct (Z_le_gt_dec (t_state (S x)) 2) as [Hle|Hgt]; [exact Hle|]. specialize (Q31 ltac:(lia)). lia.
-      - assert (Kw0 : kinv w (t_nv (S y)) = true).
-        { apply kinv_In in Kw. rewrite map_app in Kw. apply in_app_or in Kw as [Kw|[Kw|[]]]; [apply kinv_In; exact Kw|].
-          simpl in Kw. congruence. }
-        pose proof (i_pair _ _ _ _ _ HI w y Hw) as Pw.
-        assert (Rw : rn w = true).
-        { destruct (rn w) eqn:Rw; [reflexivity|exfalso]. pose proof (p_V _ _ _ _ _ Pw) as Ew. unfold CV, SV in Ew.
-          rewrite Rw, Ry, Kw0 in Ew. pose proof (g_c _ _ _ _ Gy). pose proof (cnt_nonneg 1 (pd w y)). simpl in Ew. lia. }
-        destruct (le_facts w y Hw Rw Ry) as (L1 & _ & _). rewrite Kw0 in L1. simpl in L1.
-        destruct (pos_facts w y Hw Rw Ry) as (W1 & W2 & W3).
-        pose proof (i_good _ _ _ _ _ HI w Rw (act_of d y w (nbrs_sym d y w Hw))) as Gw.
-        pose proof (b2z_range (P_Mgm2x.doneb stop (t_cycle (S w)))) as Fw. rewrite <- (g_fin _ _ _ _ Gw) in Fw.
-        assert (Cw : t_cycle (S w) = t_cycle (S y) /\ t_fin (S w) = 0) by (clear - L1 W1 W2 Hk Fw; lia).
-        destruct Cw as [Cw Fw0]. repeat split; try assumption.
-        destruct (W3 Cw) as (W31 & _).
-        destruct (Z_le_gt_dec (t_state (S w)) 2) as [Hle|Hgt]; [exact Hle|]. specialize (W31 ltac:(lia)). lia. }
+      destruct (Z.eq_dec w x) as [->|Hwx]; [repeat split; assumption|].
+      pose proof Kw as Kw0. rewrite kinv_snocV in Kw0. apply Z.eqb_neq in Hwx. rewrite Hwx, orb_false_r in Kw0.
+      pose proof (cnt_nonneg 1 (pd w y)) as Hnn.
+      destruct (nbr_here1 y w Ry Hk Hw) as (R & C & F & K & _); [rewrite Kw0; simpl; clear - Hnn; lia|].
+      repeat split; assumption. }
     assert (Hnd : doneb (t_cycle (S y)) = false).
-    { pose proof (g_fin _ _ _ _ Gx) as Fx. rewrite Hfx, Hcyc in Fx. destruct (doneb (t_cycle (S y))); [discriminate|reflexivity]. }
+    { pose proof (g_fin _ _ _ _ (i_good _ _ _ _ _ HI x Rx (act_of d y x Hyx))) as Fx. rewrite Hfx, Hcyc in Fx.
+      destruct (doneb (t_cycle (S y))); [discriminate|reflexivity]. }
+    destruct (hvm0_spec d thr y s1 Hact) as (s2' & off & p & g & E & Hg & Hpin & K2 & Po2).
+    rewrite E in Hm. injection Hm as <- <- <-. clear E.
+    unfold skel in K2. injection K2 as K2st K2cy K2fi K2nv K2of K2ng K2pa K2co K2or.
     assert (G2 : good y s2').
-    { destruct Gy. constructor; rewrite ?K2st, ?K2cy, ?K2fi, ?K2nv, ?K2of, ?K2ng, ?K2pa, ?K2co, ?K2or; auto;
-        try (clear; lia); try (intros H; exfalso; clear - H; lia); try (intros H; discriminate H).
+    { pose proof Gy as Gy0. destruct Gy.
+      constructor; rewrite ?K2st, ?K2cy, ?K2fi, ?K2nv, ?K2of, ?K2ng, ?K2pa, ?K2co, ?K2or;
+        rewrite ?K1cy, ?K1fi, ?K1nv, ?K1of, ?K1ng, ?K1co, ?Fof, ?Fng, ?Fcom; auto;
+        try (intros H; discriminate H); try (intros H; exfalso; clear - H; lia).
+      - clear; lia.
       - intros Hd. rewrite Hnd in Hd. discriminate.
       - split; [constructor|split; [intros z []|constructor]].
       - split; [constructor|intros z []].
       - intros _. rewrite <- K1nv. exact Ez.
-      - intros _. simpl. destruct (nbr y); [congruence|simpl; lia].
-      - intros Ho. subst off. exists p. split; [reflexivity|apply Hpin; reflexivity].
-      - intros Ho _. subst off. reflexivity. }
-    admit.
-  Admitted.
+      - intros _. simpl. destruct (nbr y); [congruence|simpl; clear; lia].
+      - intros Ho. rewrite Ho. exists p. split; [reflexivity|apply Hpin; exact Ho].
+      - intros Ho _. rewrite Ho. reflexivity. }
+    assert (Hgf : forall t, fst (g t) = t) by (intros t; destruct (Hg t) as [os Ht]; rewrite Ht; reflexivity).
+    assert (Hout : forall w, to_y2 w (map g (nbr y)) = if zmem w (nbr y) then [snd (g w)] else []).
+    { intros w. apply (to_y2_map g (nbr y) w Hgf (nbrs_nodup d y)). }
+    assert (HInv : InvA rn (updS S y s2') (pd_step pd x y (l1 ++ l2) (map g (nbr y)))).
+    { apply (step_frame d stop rn S pd y s2' x (l1 ++ l2) _ HI Ry Hact Hxy G2).
+      - intros x' Hx'. assert (Hx'y : x' <> y) by (intros ->; eapply nbrs_irrefl; eauto).
+        destruct (AllN x' Hx') as (Rx' & Cx' & Fx' & Kx' & _).
+        apply (recv_to2 rn (updS S y s1) (updS S y s2') (pd_step pd x y (l1 ++ l2) []) _ x' y off p);
+          rewrite ?updS_same, ?updS_other by assumption; try reflexivity; try assumption; try congruence.
+        + apply pd_step_recv_indepV. exact Hx'y.
+        + apply (P1r x' Hx').
+      - intros w Hw. assert (Hwy : w <> y) by (intros ->; eapply nbrs_irrefl; eauto).
+        destruct (AllN w Hw) as (Rw & Cw & Fw & Kw & _).
+        destruct (Hg w) as [osw Hgw].
+        apply (send_to2 rn (updS S y s1) (updS S y s2') (pd_step pd x y (l1 ++ l2) []) _ y w off p osw);
+          rewrite ?updS_same, ?updS_other by assumption; try reflexivity; try assumption; try congruence.
+        + rewrite !pd_step_send. simpl to_y2 at 1. rewrite app_nil_r. f_equal. rewrite Hout.
+          rewrite (proj2 (zmem_In w (nbr y)) Hw), Hgw. reflexivity.
+        + apply (P1s w Hw).
+      - intros w Hw. rewrite Hout. destruct (zmem w (nbr y)) eqn:E'; [exfalso; apply Hw; apply zmem_In; exact E'|reflexivity]. }
+    split; [exact HInv|]. split; [apply evok_nil; rewrite K2fi, K1fi; reflexivity|]. split; [rewrite Po2; exact Po1|].
+    intros _ x' Hx'. assert (Hx'y : x' <> y) by (intros ->; eapply nbrs_irrefl; eauto).
+    destruct (AllN x' Hx') as (Rx' & Cx' & Fx' & _ & Kx').
+    pose proof (p_V _ _ _ _ _ (i_pair _ _ _ _ _ HInv x' y Hx')) as EV. unfold SV, CV in EV.
+    rewrite Ry, Rx', updS_same, (updS_other S y s2' x' Hx'y), K2cy, K2nv, K1cy, K1nv, Kx', Cx', Fx' in EV.
+    rewrite Hk. change (b2z true) with 1 in EV. clear - EV. lia.
+  Qed.
 End StepV.
